@@ -94,6 +94,16 @@ def run(ctx):
             A = ("mul", ("div", ("add", nowh, period), ("int", 3600)), ("int", 3600))
             isA = match(A, nft) is not None
             gtc = None
+            # the same maximum written with max(): max(aligned, now + buffer) in either operand order
+            sv = ix.inline(a.c(sym.field(st_val, "next_funding_time")))
+            if tag(sv) in ("op", "call") and str(payload(sv)[0]).split("::")[-1] == "max" and len(kids(sv)) == 2:
+                k0, k1 = kids(sv)
+                for x, y in ((k0, k1), (k1, k0)):
+                    if match(A, N(ix, x)) is not None and any(vcfg(z, "funding_buffer_period") for z in sym.walk(ix.inline(y))) \
+                            and any(tag(z) == "op" and payload(z)[0] == "ts.seconds" for z in sym.walk(ix.inline(y))):
+                        gtc = "max"
+            if gtc == "max":
+                continue
             for (at, o, _b, _l) in q.conds:
                 at = a.c(at)
                 if tag(at) == "op" and payload(at)[0] == "gt" and match(A, N(ix, kids(at)[0])) is not None:
